@@ -308,6 +308,21 @@ def _chk_case(o, mode, key, case, acc, seed):
             if dig(r) != cold:
                 acc.violation(f'{key}:list-input:{pname}', case, f'{o.name} with {pname} given as a nested list of the same numbers differs from the ndarray call')
             return
+        if mode == 'triple':
+            # depth 4 over one parameter: [Vi; Vj; Vl; Vj] ends with what a cold Vj returns (bounded memos evict, and an eviction that
+            # drops the wrong entry only shows when an older entry is asked for again)
+            vi, vj, vl = (variant_by_name(o, case[k]) for k in ('first', 'second', 'third'))
+            cold_j, _ = _cold(o, seed, vj)
+            engine.reset_library_state()
+            last = None
+            for v in (vi, vj, vl, vj):
+                np.random.seed(4242)
+                a = o.args(seed, v)
+                last = _result(o, _call(o, a), a)
+            if dig(last) != cold_j:
+                acc.violation(f'{key}:depends-on-earlier-calls', case,
+                              f'{o.name}({vj[0]}) after the calls ({vi[0]}), ({vj[0]}), ({vl[0]}) differs from the same call on a cold library')
+            return
         if mode == 'cross':
             ob = catalogue()[case['then']]
             cold_b, _ = _cold(ob, seed, ob.variants()[0])
@@ -490,6 +505,15 @@ def t_callhist(arg, acc):
             acc.transitions += 1
             chk_case(dict(case0, mode='pair', first=va[0], second=vb[0]), acc, seed)
     acc.cls('history:pairs', len(V) * len(V))
+    ntr = 0
+    for p in sorted(o.alts):
+        vals = [V[0]] + [v for v in V if v[1] == p]
+        if len(vals) >= 3:
+            import itertools as _it
+            for vi, vj, vl in _it.permutations(vals[:5], 3):
+                chk_case(dict(case0, mode='triple', first=vi[0], second=vj[0], third=vl[0]), acc, seed)
+                ntr += 1
+    acc.cls('history:triples', ntr)
     for v in V:
         chk_case(dict(case0, mode='edit', variant=v[0]), acc, seed)
     chk_case(dict(case0, mode='frozen'), acc, seed)
